@@ -4,23 +4,159 @@
  * sets the real code passed (see c16_snap.h).  qsend.c is included unmodified; its select hook is wrapped.
  *
  * usage: as qsend:  c16_selprep <nrandom> <seed> <shard> <nshards>   |   c16_selprep -   (scenario lines on stdin)
+ *
+ * Scenario keys handled HERE (qsend.c's parser ignores keys it does not know; they are part of the CASE text, so a replay
+ * reproduces them):
+ *   intr=<at>:<T|A|H>:<permille>,...   the <at>-th select() call of an incarnation (1-based, interrupted calls included) is
+ *                                      INTERRUPTED by the signal: the handler runs, <permille>/1000 of the requested timeout
+ *                                      elapses, select returns -1/EINTR and nothing else happens at that call (no descriptor is
+ *                                      reported, arrivals and delivery reports wait for the next call).  The snapshot is taken
+ *                                      first, like at every call.  (qsend.c's sig= delivers the signal inside a select that then
+ *                                      returns normally after the FULL timeout; with that alone a signal never reaches a daemon
+ *                                      that is still far from its next wake-up time.)
+ *   adv=<n>                            virtual time also passes while the daemon works: after every select call that returns
+ *                                      normally the clock moves on by a pseudo-random 0..n seconds (a function of the call
+ *                                      number).  Gives messages that arrive close together distinct birth and retry times.
+ *
+ * Scenario families generated here, after those of qsend.c (r = nrandom):
+ *   r/2  "deferred-queue" scenarios: 3-6 messages, mostly on one channel, arriving before, during and after the start-up scan,
+ *        outcome scripts dominated by deferrals with some successes and failures (channel heaps of three and more entries with
+ *        distinct due times, entries removed and re-inserted in many orders), ALRM/HUP/TERM both ways (sig= and intr=) at
+ *        selects drawn from the WHOLE run (busy and idle phases), clean stops and crashes followed by a restart on the queue of
+ *        deferred messages (pqstart rebuilds the heaps);
+ *   r/40 interrupt sweeps: a deferred-queue base run without signals, then one run per select point with SIGALRM (sometimes
+ *        SIGHUP) interrupting exactly that select: every select at which the daemon was about to sleep with messages queued,
+ *        every select next to a command/report/arrival, and every 16th other one (capped, spread evenly).
  */
 #define _GNU_SOURCE
 #include "sim.h"
 static int (*c16_inner)(simproc *, int, fd_set *, fd_set *, struct timeval *);
+static int c16_inc_serial;               /* bumped at every start of an incarnation of the daemon */
+static void c16_globals_restore(void) { c16_inc_serial++; sim_globals_restore(); }
 #define main qsend_main
 #define sim_select_hook c16_inner        /* qsend.c's `sim_select_hook = daemon_select;` installs the inner hook */
+#define sim_globals_restore c16_globals_restore   /* start_incarnation() announces itself */
 #include "qsend.c"
+#undef sim_globals_restore
 #undef sim_select_hook
 #undef main
 #include "c16_snap.h"
 
+/* ---- the keys intr= and adv= ---- */
+static struct { int at, sig, pm; } c16_in[12]; static int c16_nin, c16_adv;
+static int c16_sel, c16_seen_inc;
+static void c16_parse_keys(void) {
+  c16_nin = 0; c16_adv = 0;
+  char tmp[1600]; snprintf(tmp, sizeof tmp, "%s", S.text); char *save = 0;
+  for (char *t = strtok_r(tmp, " ", &save); t; t = strtok_r(0, " ", &save)) {
+    if (!strncmp(t, "adv=", 4)) c16_adv = atoi(t + 4);
+    else if (!strncmp(t, "intr=", 5)) { char *s2 = 0;
+      for (char *u = strtok_r(t + 5, ",", &s2); u && c16_nin < 12; u = strtok_r(0, ",", &s2)) { char c; int at, pm = 0;
+        if (sscanf(u, "%d:%c:%d", &at, &c, &pm) >= 2) { c16_in[c16_nin].at = at; c16_in[c16_nin].sig = c; c16_in[c16_nin].pm = pm < 0 ? 0 : pm > 1000 ? 1000 : pm; c16_nin++; } } }
+  }
+}
+
+/* what the base run of a sweep looked like (first incarnation): per select, was the daemon about to sleep, and was anything queued */
+static unsigned char c16_idle[MAXSEL], c16_queued[MAXSEL]; static int c16_nsel1;
+
 static int c16_select(simproc *p, int nfds, fd_set *r, fd_set *w, struct timeval *tv) {
-  if (p->idx == 0) c16_snapshot(p, nfds, r, w, tv);
-  return c16_inner ? c16_inner(p, nfds, r, w, tv) : 0;
+  if (p->idx != 0) return c16_inner ? c16_inner(p, nfds, r, w, tv) : 0;
+  if (c16_seen_inc != c16_inc_serial) { c16_seen_inc = c16_inc_serial; c16_sel = 0; c16_parse_keys(); }
+  c16_sel++;
+  c16_snapshot(p, nfds, r, w, tv);
+  if (incarnation == 1 && c16_sel < MAXSEL) {
+    c16_nsel1 = c16_sel; c16_idle[c16_sel] = tv && tv->tv_sec > 0;
+    c16_queued[c16_sel] = (pqchan[0].p && pqchan[0].len) || (pqchan[1].p && pqchan[1].len) || (pqdone.p && pqdone.len) || (pqfail.p && pqfail.len);
+  }
+  int fired = 0;
+  for (int i = 0; i < c16_nin; i++) if (c16_in[i].at == c16_sel) {
+    int sg = c16_in[i].sig == 'T' ? SIGTERM : c16_in[i].sig == 'A' ? SIGALRM : SIGHUP;
+    long el = tv && tv->tv_sec > 0 && !fired ? (long)tv->tv_sec * c16_in[i].pm / 1000 : 0;
+    xlog("X intr select=%d signal=%c elapsed=%ld\n", c16_sel, c16_in[i].sig, el);
+    W.clock += el;
+    if (sg == SIGTERM) stop_requested = 1;
+    sim_deliver_signal(p, sg);
+    fired = 1;
+  }
+  if (fired) { if (r) FD_ZERO(r); if (w) FD_ZERO(w); errno = EINTR; return -1; }
+  int n = c16_inner ? c16_inner(p, nfds, r, w, tv) : 0;
+  if (c16_adv > 0) W.clock += (long)((((uint64_t)c16_sel * 0x9E3779B97F4A7C15ull) >> 33) % (uint64_t)(c16_adv + 1));
+  return n;
+}
+
+/* ---- scenario families of this harness ---- */
+static const char *c16_loc[] = { "u1@h.example", "u2@h.example", "u3@h.example" };
+static const char *c16_rem[] = { "r1@far.example", "r2@far.example", "r3@other.example" };
+
+/* deferred-queue: several messages whose deliveries are mostly deferred, so that the channel heaps hold three and more entries
+ * with distinct due times for a long stretch of the run while entries leave (success, failure) and come back (deferral) */
+static void gen_deferred(char *o, size_t osz, int signals) {
+  size_t n = 0; char out[40];
+  int nm = 3 + h_below(4), mainchan = h_below(2);
+  int at = h_below(3) == 0 ? 0 : 1 + (int)h_below(130);     /* in the queue at start / during the start-up scan of mess/ / after it */
+  n += snprintf(o + n, osz - n, "m=");
+  for (int i = 0; i < nm; i++) {
+    int nr = 1 + (h_below(4) == 0);
+    n += snprintf(o + n, osz - n, "%s%s:", i ? ";" : "", senders[h_below(10) < 7 ? 0 : h_below(5)]);
+    for (int j = 0; j < nr; j++) { int ch = h_below(5) == 0 ? !mainchan : mainchan; n += snprintf(o + n, osz - n, "%s%s", j ? "," : "", (ch ? c16_rem : c16_loc)[h_below(3)]); }
+    if (at) n += snprintf(o + n, osz - n, "@%d", at);
+    at += 1 + (int)h_below(h_below(3) == 0 ? 4 : 40);
+  }
+  n += snprintf(o + n, osz - n, " out=%s ord=%d cl=%d cr=%d sl=%d sr=%d", outscript(out, 16, "ZZZZZZKKD"), (int)h_below(3), 1 + (int)h_below(4), 1 + (int)h_below(4), 1 + (int)h_below(5), 1 + (int)h_below(5));
+  n += snprintf(o + n, osz - n, " adv=%d", (int[]){0, 0, 1, 2, 7, 40}[h_below(6)]);
+  if (h_below(6) == 0) n += snprintf(o + n, osz - n, " life=%d", (int[]){2000, 7200, 100000}[h_below(3)]);
+  if (h_below(8) == 0) n += snprintf(o + n, osz - n, " bf=%s", (const char *[]){"1", "10", "01"}[h_below(3)]);
+  int hor = at + 150 + (int)h_below(300);
+  if (signals) {
+    int k = 1 + h_below(3); char a[120] = "", b[160] = ""; size_t na = 0, nb = 0;
+    for (int i = 0; i < k; i++) {
+      int sel = 1 + (int)h_below(hor + 20); char sg = "AAAAHHT"[h_below(7)];
+      if (h_below(3) == 0) na += snprintf(a + na, sizeof a - na, "%s%d:%c", na ? "," : "", sel, sg);
+      else nb += snprintf(b + nb, sizeof b - nb, "%s%d:%c:%d", nb ? "," : "", sel, sg, (int[]){0, 0, 0, (int)h_below(1000), 999}[h_below(5)]);
+    }
+    if (na) n += snprintf(o + n, osz - n, " sig=%s", a);
+    if (nb) n += snprintf(o + n, osz - n, " intr=%s", b);
+    if (h_below(5) == 0) n += snprintf(o + n, osz - n, " term=%d", 95 + (int)h_below(hor - 95));        /* clean stop, restart on the deferred queue */
+    else if (h_below(8) == 0) n += snprintf(o + n, osz - n, " crash=%d:%d", 400 + (int)h_below(2500), (int)h_below(5));
+  }
+  n += snprintf(o + n, osz - n, " hor=%d", hor);
+}
+
+static void sweep_intr(char *base, int cap, int variants) {
+  static char line[4000];
+  memset(c16_idle, 0, sizeof c16_idle); memset(c16_queued, 0, sizeof c16_queued); c16_nsel1 = 0;
+  after_first_incarnation = collect_calls; sweep_all = 0; run_line(base); after_first_incarnation = 0;
+  static unsigned char idle[MAXSEL], queued[MAXSEL]; memcpy(idle, c16_idle, sizeof idle); memcpy(queued, c16_queued, sizeof queued);
+  int last = c16_nsel1; if (last >= MAXSEL) last = MAXSEL - 1;
+  static int ks[MAXSEL]; int nk = 0;
+  for (int k = 1; k <= last; k++) if ((idle[k] && queued[k]) || sweep_active[k] || sweep_active[k - 1] || k % 16 == 0) ks[nk++] = k;
+  int step = nk > cap ? (nk + cap - 1) / cap : 1; int off = step > 1 ? (int)h_below(step) : 0;
+  for (int i = off; i < nk; i += step) {
+    char sg = variants && h_below(4) == 0 ? 'H' : 'A';
+    int pm = variants ? (int[]){0, 0, (int)h_below(1000), 999}[h_below(4)] : 0;
+    snprintf(line, sizeof line, "%s intr=%d:%c:%d", base, ks[i], sg, pm);
+    run_line(line);
+  }
 }
 
 int main(int argc, char **argv) {
   sim_select_hook = c16_select;
-  return qsend_main(argc, argv);
+  int rc = qsend_main(argc, argv);
+  if (rc || (argc > 1 && !strcmp(argv[1], "-"))) return rc;
+  int nrandom = h_argi(argc, argv, 1, 100);
+  uint64_t seed = (uint64_t)h_argi(argc, argv, 2, 1);
+  int shard = h_argi(argc, argv, 3, 0), nshards = h_argi(argc, argv, 4, 1);
+  int thorough = nrandom >= 8000;
+  char *line = malloc(4000);
+  int cnt[2] = { nrandom / 2, nrandom / 40 };
+  for (int f = 0, r = 0; f < 2; f++) for (int i = 0; i < cnt[f]; i++, r++) {
+    if ((i + 7 + 3 * f) % nshards != shard) continue;
+    h_seed(seed * 1000003ull + 500000000ull + r);
+    switch (f) {
+      case 0: gen_deferred(line, 1500, i % 8 != 0); run_line(line); break;
+      case 1: gen_deferred(line, 1500, 0); sweep_intr(line, thorough ? 60 : 24, thorough || i % 2); break;
+    }
+  }
+  fflush(h_out);
+  return 0;
 }
